@@ -65,6 +65,11 @@ def build(env, reps):
             s.call("decap", skr="$kR.sk", enc="$kR.pk", cls="enc-equals-pkR")
             s.call("decap", skr="$kR.sk", enc="$kR.pk", pks="$kS.pk", cls="enc-equals-pkR")
             s.call("decap", skr="$kR.sk", enc="$kS.pk", pks="$kS.pk", cls="enc-equals-pkS")
+            if kem == 0x0020:
+                s.call("encap", pkr="$kR.pk^flip:255", rng=rng, cls="pkR-high-bit")
+                s.call("encap", pkr="$kR.pk^flip:255", sks="$kS.sk", pks="$kS.pk^flip:255", rng=rng, cls="pkR-pkS-high-bit")
+                s.call("decap", skr="$kR.sk", enc="$e.enc^flip:255", cls="enc-high-bit")
+                s.call("decap", skr="$kR.sk", enc="$a.enc", pks="$kS.pk^flip:255", cls="pkS-high-bit")
         # --- decap of reference-produced encapsulations
         k = R.KEMS[kem]
         for j in range(reps * 4):
